@@ -110,6 +110,7 @@ type asyncCase struct {
 	Shared    bool // Refresh mode: a second (sync) logger shares the appenders; Destroy stops the system
 	TwiceStop bool
 	EmptyRaw  bool // every fifth submission is a raw write with an empty payload (nil or zero-length)
+	Restart   bool // direct mode: the logger value went through a Start/Stop cycle before
 	SameName  bool // Refresh mode: the first file-owning appender has the same name as the logger (separate sections)
 }
 
@@ -129,6 +130,7 @@ func genAsyncCase(t *rapid.T) asyncCase {
 		TwiceStop: rapid.Bool().Draw(t, "twice"),
 		EmptyRaw:  rapid.Bool().Draw(t, "emptyRaw"),
 		SameName:  rapid.Bool().Draw(t, "sameName"),
+		Restart:   rapid.IntRange(0, 2).Draw(t, "restart") == 0,
 	}
 	switch rapid.IntRange(0, 3).Draw(t, "occK") {
 	case 0:
@@ -195,6 +197,15 @@ func runAsyncCase(c asyncCase, dir string) error {
 		}
 		if err := l.Start(); err != nil {
 			return fmt.Errorf("VERIF-INCONCLUSIVE: %v", err)
+		}
+		if c.Restart {
+			// an earlier life of the same logger value (stopped while idle), then started again
+			if done, p := vk.Within(20*time.Second, l.Stop); !done || p != nil {
+				return fmt.Errorf("VERIF-HANG Stop of an idle logger did not return (panic=%v)", p)
+			}
+			if err := l.Start(); err != nil {
+				return fmt.Errorf("second Start of the same AsyncLogger value failed: %v", err)
+			}
 		}
 		submitEv = func(id int64) {
 			e := log.GetEvent()
